@@ -161,7 +161,9 @@ def judge(ctx, case):
                 else:
                     # "quadrature accuracy": at least as accurate as the
                     # documented default rule is on these very segments
-                    tol = 1e-9 * scale + 1.000001 * documented_rule_error(curves, a, b)
+                    # (2 %: the library evaluates that rule in floats, the
+                    # reference in exact arithmetic)
+                    tol = 1e-9 * scale + 1.02 * documented_rule_error(curves, a, b)
                 if abs(float(got) - float(ref)) > tol:
                     ctx.violation("integral", "curved-exact" if exact_rule else "curved-quadrature", sub,
                                   "%s(%d,%d) = %r, reference %r, tol %r" % (name, a, b, float(got), float(ref), tol), kind)
